@@ -5,11 +5,15 @@ package main
 // C19 scenario generators, registration and table dump.
 
 import (
+	"context"
 	"fmt"
 	"sort"
 	"strings"
 
+	metav1 "k8s.io/apimachinery/pkg/apis/meta/v1"
 	"k8s.io/apimachinery/pkg/apis/meta/v1/unstructured"
+
+	"github.com/crossplane/crossplane-runtime/pkg/resource/unstructured/composed"
 
 	"github.com/crossplane/crossplane/apis/apiextensions/v1beta1"
 	usagectrl "github.com/crossplane/crossplane/internal/controller/apiextensions/usage"
@@ -31,7 +35,11 @@ func c19Versions(av string) []string {
 
 var c19Outcomes = []string{"ok", "fail", "conflict", "crashBefore", "crashAfter"}
 
+// served versions of the Usage kind a Composition's template may name ("" = v1beta1)
+var c19UsageVersions = []string{"", "", v1beta1.Group + "/v1beta1", v1beta1.Group + "/v1alpha1"}
+
 type c19GenState struct {
+	lag     bool // this scenario has informer-cache lag
 	r       *Rng
 	steps   []c19Step
 	xrs     []string
@@ -174,8 +182,11 @@ func (g *c19GenState) deleteRes() {
 	}
 	st := c19Step{Op: "dr", AV: av, Kind: t.Kind, Name: t.Name, Policy: Pick(g.r, []string{"", "", "Background", "Foreground", "Orphan"})}
 	if g.r.Chance(1, 8) {
-		st.WO = []string{Pick(g.r, []string{"ok", "fail"}), Pick(g.r, []string{"ok", "fail", "conflict"})}
+		st.WO = []string{Pick(g.r, []string{"ok", "ok", "fail", "forbidden", "timeout", "transport", "deadline", "notFound"}), Pick(g.r, []string{"ok", "fail", "conflict", "notFound", "forbidden", "invalid", "timeout"})}
 		g.feat["hookfault"] = true
+	}
+	if g.lag && g.r.Chance(1, 3) {
+		st.V = Pick(g.r, []int{1, 2, 3, 5, 8, 13})
 	}
 	g.add(st)
 }
@@ -188,9 +199,28 @@ func (g *c19GenState) outcome() string {
 	return Pick(g.r, c19Outcomes[1:])
 }
 
+// stepOf: one API call of the reconcile of u: outcome, error class of a failure, cache lag.
+func (g *c19GenState) stepOf(u string) c19Step {
+	st := c19Step{Op: "step", U: u, O: g.outcome()}
+	if st.O == "fail" && g.r.Chance(3, 4) {
+		st.E = Pick(g.r, c19ErrClasses)
+	}
+	if g.lag && g.r.Chance(1, 3) {
+		st.V = Pick(g.r, []int{1, 2, 3, 5, 8, 13, 99})
+	}
+	return st
+}
+
+// touchRes: another writer edits the labels of a resource.
+func (g *c19GenState) touchRes() {
+	t := g.pickRes()
+	g.add(c19Step{Op: "er", AV: t.AV, Kind: t.Kind, Name: t.Name, Labels: map[string]string{Pick(g.r, []string{"rev", "app", "tier"}): Pick(g.r, []string{"1", "2", "db", "a"})}})
+}
+
 func c19GenRandom(r *Rng) c19Scn {
 	g := &c19GenState{r: r, flying: map[string]bool{}, feat: map[string]bool{}}
 	maxc := Pick(r, []int{1, 1, 1, 1, 2, 2, 2, 2, 3, 3})
+	g.lag = r.Chance(1, 4)
 	for i, n := 0, Pick(r, []int{0, 0, 1, 2}); i < n; i++ {
 		x := fmt.Sprintf("x%d", i)
 		g.add(c19Step{Op: "cr", AV: c19XRAV, Kind: c19XRKind, Name: x})
@@ -218,7 +248,10 @@ func c19GenRandom(r *Rng) c19Scn {
 				g.add(c19Step{Op: "start", U: u})
 			}
 			for j, m := 0, r.Range(1, 5); j < m; j++ {
-				g.add(c19Step{Op: "step", U: u, O: g.outcome()})
+				g.add(g.stepOf(u))
+				if r.Chance(1, 8) {
+					g.touchRes() // another writer between two calls of the reconcile
+				}
 			}
 			g.feat["sched"] = true
 		case w < 74:
@@ -226,10 +259,16 @@ func c19GenRandom(r *Rng) c19Scn {
 		case w < 88:
 			g.deleteRes()
 		case w < 90:
-			if len(g.xrs) > 0 {
-				g.add(c19Step{Op: "xa", Name: g.pickUsage(), Ctrl: Pick(r, g.xrs)})
-			} else {
-				g.deleteRes()
+			switch {
+			case len(g.xrs) > 0 && r.Chance(3, 4):
+				g.add(c19Step{Op: "xa", Name: g.pickUsage(), Ctrl: Pick(r, g.xrs), AV: Pick(r, c19UsageVersions)})
+			case len(g.xrs) > 0:
+				// the XR is deleted and created again under the same name (new uid)
+				x := Pick(r, g.xrs)
+				g.add(c19Step{Op: "dr", AV: c19XRAV, Kind: c19XRKind, Name: x})
+				g.add(c19Step{Op: "cr", AV: c19XRAV, Kind: c19XRKind, Name: x})
+			default:
+				g.touchRes()
 			}
 		case w < 94:
 			if r.Bool() {
@@ -239,7 +278,11 @@ func c19GenRandom(r *Rng) c19Scn {
 				g.add(c19Step{Op: "gc", AV: t.AV, Kind: t.Kind, Name: t.Name})
 			}
 		default:
-			g.newRes()
+			if r.Bool() {
+				g.newRes()
+			} else {
+				g.touchRes()
+			}
 		}
 	}
 	if r.Chance(1, 3) {
@@ -312,6 +355,14 @@ func c19GenMerge(r *Rng) c19Scn {
 			steps = append(steps, streams[i][0])
 			streams[i] = streams[i][1:]
 		}
+		if r.Chance(1, 10) {
+			// somebody else touches the used resource (its resourceVersion moves) or asks for its deletion
+			if r.Bool() {
+				steps = append(steps, c19Step{Op: "er", AV: used.AV, Kind: used.Kind, Name: used.Name, Labels: map[string]string{"rev": fmt.Sprint(r.Intn(3))}})
+			} else {
+				steps = append(steps, c19Step{Op: "dr", AV: used.AV, Kind: used.Kind, Name: used.Name, Policy: Pick(r, []string{"", "Orphan"})})
+			}
+		}
 	}
 	steps = append(steps, c19Step{Op: "dr", AV: Pick(r, c19Versions(used.AV)), Kind: used.Kind, Name: used.Name, Policy: Pick(r, []string{"", "Foreground"})})
 	steps = append(steps, c19Step{Op: "run", U: "u1"}, c19Step{Op: "dr", AV: used.AV, Kind: used.Kind, Name: used.Name})
@@ -356,14 +407,22 @@ func c19GenFaultSweep(r *Rng) c19Scn {
 	o := Pick(r, c19Outcomes[1:])
 	steps = append(steps, c19Step{Op: "start", U: "u0"})
 	for i := 0; i < 11; i++ {
-		oc := "ok"
+		st := c19Step{Op: "step", U: "u0", O: "ok"}
 		if i == k {
-			oc = o
+			st.O = o
+			if o == "fail" {
+				st.E = Pick(r, append([]string{""}, c19ErrClasses...))
+			}
 		}
-		steps = append(steps, c19Step{Op: "step", U: "u0", O: oc})
+		if i == k+1 && r.Chance(1, 4) {
+			// a real conflict instead of an injected one: another writer moves the resourceVersion
+			// of the used resource between the reconcile's read and its write
+			steps = append(steps, c19Step{Op: "er", AV: used.AV, Kind: used.Kind, Name: used.Name, Labels: map[string]string{"rev": "1"}})
+		}
+		steps = append(steps, st)
 	}
 	steps = append(steps, c19Step{Op: "dr", AV: Pick(r, c19Versions(used.AV)), Kind: used.Kind, Name: used.Name, Policy: Pick(r, []string{"", "Background"})})
-	steps = append(steps, c19Step{Op: "run", U: "u0"}, c19Step{Op: "xa", Name: "u0", Ctrl: "x0"}, c19Step{Op: "dr", AV: used.AV, Kind: used.Kind, Name: used.Name})
+	steps = append(steps, c19Step{Op: "run", U: "u0"}, c19Step{Op: "xa", Name: "u0", Ctrl: "x0", AV: Pick(r, c19UsageVersions)}, c19Step{Op: "dr", AV: used.AV, Kind: used.Kind, Name: used.Name})
 	if r.Bool() {
 		steps = append(steps, c19Step{Op: "dr", AV: using.AV, Kind: using.Kind, Name: using.Name}, c19Step{Op: "gc", Kind: v1beta1.UsageKind, Name: "u0"}, c19Step{Op: "run", U: "u0"}, c19Step{Op: "dr", AV: used.AV, Kind: used.Kind, Name: used.Name})
 	}
@@ -425,8 +484,9 @@ func c19GenOwner(r *Rng) c19Scn {
 	drUsed := func() c19Step {
 		return c19Step{Op: "dr", AV: Pick(r, c19Versions(used.AV)), Kind: used.Kind, Name: used.Name, Policy: Pick(r, []string{"", "Foreground", "Orphan"})}
 	}
+	xaAV := Pick(r, c19UsageVersions)
 	if variant == 1 && r.Bool() {
-		steps = append(steps, c19Step{Op: "xa", Name: "u0", Ctrl: "x0"})
+		steps = append(steps, c19Step{Op: "xa", Name: "u0", Ctrl: "x0", AV: xaAV})
 	}
 	switch r.Intn(4) {
 	case 0, 1:
@@ -466,7 +526,7 @@ func c19GenOwner(r *Rng) c19Scn {
 		tail = append(tail, gcU, drUsed())
 	}
 	if variant == 1 {
-		tail = append(tail, c19Step{Op: "xa", Name: "u0", Ctrl: "x0"})
+		tail = append(tail, c19Step{Op: "xa", Name: "u0", Ctrl: "x0", AV: xaAV})
 	}
 	for _, i := range r.Perm(len(tail)) {
 		steps = append(steps, tail[i])
@@ -518,6 +578,354 @@ func c19OwnerExhaustive(emit func(c19Scn, string)) {
 					}
 				}
 			}
+		}
+	}
+}
+
+// c19GenClasses: error classes. A Usage of r0 (by reference or selector, with or without a using
+// resource, plain or composed) is reconciled five times; attempt i fails at a random call with
+// error class c_i (five different classes: NotFound, AlreadyExists, Invalid, Forbidden, Timeout,
+// ServiceUnavailable, a Temporary() transport error, a context deadline, Conflict, internal),
+// then a clean reconcile; the same for the deletion of the Usage; delete requests for r0 whose
+// webhook calls fail with a class in between. A classed failure must never let the reconcile
+// report Ready without the label, remove the label, or let the webhook allow the delete.
+func c19GenClasses(r *Rng) c19Scn {
+	used := c19ResID{"ex.org/v1", "Thing", "r0"}
+	using := c19ResID{"ex.org/v1", "Other", "r1"}
+	steps := []c19Step{
+		{Op: "cr", AV: c19XRAV, Kind: c19XRKind, Name: "x0"},
+		{Op: "cr", AV: used.AV, Kind: used.Kind, Name: used.Name, Labels: map[string]string{"app": "db"}},
+		{Op: "cr", AV: using.AV, Kind: using.Kind, Name: using.Name, Labels: map[string]string{"app": "web"}},
+	}
+	of := &c19RSpec{AV: Pick(r, c19Versions(used.AV)), Kind: used.Kind, Name: used.Name}
+	if r.Chance(1, 3) {
+		of.Name, of.Sel = "", &c19Sel{Labels: map[string]string{"app": "db"}}
+	}
+	cu := c19Step{Op: "cu", Name: "u0", Of: of, Composed: r.Bool(), Ctrl: Pick(r, []string{"", "x0"})}
+	if r.Chance(2, 3) {
+		cu.By = &c19RSpec{AV: using.AV, Kind: using.Kind, Name: using.Name}
+		if r.Chance(1, 3) {
+			cu.By.Name, cu.By.Sel = "", &c19Sel{Labels: map[string]string{"app": "web"}}
+		}
+	} else {
+		cu.Reason = "why"
+	}
+	steps = append(steps, cu)
+	classes := append([]string{"", "conflict"}, c19ErrClasses...)
+	drHook := func() c19Step {
+		st := c19Step{Op: "dr", AV: Pick(r, c19Versions(used.AV)), Kind: used.Kind, Name: used.Name, Policy: Pick(r, []string{"", "Orphan"})}
+		if r.Chance(2, 3) {
+			st.WO = []string{Pick(r, append([]string{"ok", "ok", "fail"}, c19ErrClasses...)), Pick(r, append([]string{"ok", "fail", "conflict"}, c19ErrClasses...))}
+		}
+		return st
+	}
+	attempts := func() {
+		perm := r.Perm(len(classes))
+		for i := 0; i < 5; i++ {
+			steps = append(steps, c19Step{Op: "start", U: "u0"})
+			for j, k := 0, r.Intn(9); j < k; j++ {
+				steps = append(steps, c19Step{Op: "step", U: "u0", O: "ok"})
+			}
+			st := c19Step{Op: "step", U: "u0", O: "fail", E: classes[perm[i]]}
+			if i == 0 {
+				// the first attempt is the one in which every write happens for the first time
+				st.E = Pick(r, []string{"forbidden", "timeout", "notFound", "invalid", "transport"})
+			}
+			if st.E == "conflict" {
+				st.O, st.E = "conflict", ""
+			}
+			steps = append(steps, st)
+			// let the reconcile return if the failure did not end it (NotFound in the deletion branch)
+			steps = append(steps, c19Step{Op: "run", U: "u0"})
+			if r.Chance(1, 3) {
+				steps = append(steps, drHook())
+			}
+		}
+		steps = append(steps, c19Step{Op: "run", U: "u0"}, drHook())
+	}
+	attempts()
+	steps = append(steps, c19Step{Op: "du", Name: "u0"})
+	if r.Bool() {
+		steps = append(steps, c19Step{Op: "dr", AV: using.AV, Kind: using.Kind, Name: using.Name})
+	}
+	attempts()
+	steps = append(steps, c19Step{Op: "dr", AV: used.AV, Kind: used.Kind, Name: used.Name})
+	return c19Scn{MaxC: 1, Steps: steps}
+}
+
+// c19GenLag: the informer cache lags behind the store. Two Usages u0, u1 over one resource r0
+// (each by reference or by selector), u0 reconciled and then deleted by its user while u1 is
+// created and reconciled; every cached read of the reconciles (Get of the Usage, List of the
+// Usages of r0) and of the webhook is answered from a view of the Usage collection that lags a
+// random number of events behind and then either stands still or catches up; a Usage missing
+// from the cache when its reconcile starts; delete requests for r0 throughout.
+func c19GenLag(r *Rng) c19Scn {
+	used := c19ResID{"ex.org/v1", "Thing", "r0"}
+	of := func() *c19RSpec {
+		rs := &c19RSpec{AV: Pick(r, c19Versions(used.AV)), Kind: used.Kind, Name: used.Name}
+		if r.Bool() {
+			rs.Name, rs.Sel = "", &c19Sel{Labels: map[string]string{"app": "db"}}
+		}
+		return rs
+	}
+	steps := []c19Step{{Op: "cr", AV: used.AV, Kind: used.Kind, Name: used.Name, Labels: map[string]string{"app": "db"}, InUse: r.Chance(1, 4)}}
+	lagged := func(u string, n int) []c19Step {
+		// the cache is v events behind at the reconcile's first read and then stands still
+		// (v = 99: no newer view than the one already served) or catches up at some call
+		out := []c19Step{{Op: "start", U: u}}
+		v := Pick(r, []int{0, 1, 2, 3, 4, 5, 6, 8, 10, 14, 99})
+		catchUp := r.Intn(n + 3)
+		for i := 0; i < n; i++ {
+			st := c19Step{Op: "step", U: u, O: "ok", V: v}
+			if i > 0 && v > 0 {
+				st.V = 99
+			}
+			if i >= catchUp {
+				st.V = 0
+			}
+			out = append(out, st)
+		}
+		return out
+	}
+	dr := func() c19Step {
+		st := c19Step{Op: "dr", AV: Pick(r, c19Versions(used.AV)), Kind: used.Kind, Name: used.Name, Policy: Pick(r, []string{"", "Foreground"})}
+		if r.Chance(2, 3) {
+			st.V = Pick(r, []int{1, 2, 3, 4, 6, 9, 99})
+		}
+		return st
+	}
+	switch r.Intn(4) {
+	case 0:
+		// one Usage; the webhook's cache lags behind its reconcile
+		steps = append(steps, c19Step{Op: "cu", Name: "u1", Of: of(), Reason: "b"})
+		if r.Bool() {
+			steps = append(steps, c19Step{Op: "run", U: "u1"})
+		} else {
+			steps = append(steps, lagged("u1", 9)...)
+		}
+		steps = append(steps, dr(), c19Step{Op: "run", U: "u1"}, dr())
+	case 1:
+		// a Usage missing from the cache / served in an older version when its reconcile starts
+		steps = append(steps, c19Step{Op: "cu", Name: "u0", Of: of(), Reason: "a"})
+		steps = append(steps, lagged("u0", 9)...)
+		steps = append(steps, c19Step{Op: "run", U: "u0"}, dr(), c19Step{Op: "du", Name: "u0"})
+		steps = append(steps, lagged("u0", 7)...)
+		steps = append(steps, c19Step{Op: "run", U: "u0"}, dr())
+	default:
+		// u0 deleted while u1 appears: the deleting reconcile's count comes from the cache
+		steps = append(steps, c19Step{Op: "cu", Name: "u0", Of: of(), Reason: "a"}, c19Step{Op: "run", U: "u0"})
+		cu1 := c19Step{Op: "cu", Name: "u1", Of: of(), Reason: "b"}
+		du0 := c19Step{Op: "du", Name: "u0"}
+		if r.Bool() {
+			steps = append(steps, cu1, du0)
+		} else {
+			steps = append(steps, du0, cu1)
+		}
+		if r.Chance(2, 3) {
+			steps = append(steps, c19Step{Op: "run", U: "u1"})
+		} else {
+			steps = append(steps, lagged("u1", 9)...)
+		}
+		if r.Chance(1, 3) {
+			steps = append(steps, dr())
+		}
+		steps = append(steps, lagged("u0", 7)...)
+		steps = append(steps, dr(), c19Step{Op: "run", U: "u0"}, c19Step{Op: "run", U: "u1"}, dr())
+	}
+	return c19Scn{MaxC: 1, Steps: steps}
+}
+
+// c19GenIdentity: look-alike identities and several candidates. The used resource r1 lives among
+// resources whose group, kind or name differs from its own only by a suffix, a prefix, case or a
+// dot (all carrying a left-over in-use label, so that the webhook is consulted for each); the
+// Usage names r1 by reference (any version) or by a selector whose labels have look-alikes too;
+// with matchControllerRef the first listed candidates have no or another controller - also an XR
+// of the right name that was deleted and created again (same name, new uid). Every look-alike
+// must stay deletable, r1 must not; after the Usage is gone only r1 loses the label.
+func c19GenIdentity(r *Rng) c19Scn {
+	base := c19ResID{"ex.org/v1", "Thing", "r1"}
+	alikes := []c19ResID{
+		{"ex.org/v1", "Thing", "r10"}, {"ex.org/v1", "Thing", "r"}, {"ex.org/v1", "Thing", "r1.x"},
+		{"ex.org/v1", "Things", "r1"}, {"ex.org/v1", "thing", "r1"}, {"ex.org/v1", "Thin", "r1"},
+		{"ex.org.io/v1", "Thing", "r1"}, {"x.ex.org/v1", "Thing", "r1"}, {"other.io/v1", "Thing", "r1"},
+		{"org/v1", "Thing", "r1"}, {"v1", "Thing", "r1"},
+	}
+	steps := []c19Step{
+		{Op: "cr", AV: c19XRAV, Kind: c19XRKind, Name: "x0"},
+		{Op: "cr", AV: c19XRAV, Kind: c19XRKind, Name: "x1"},
+	}
+	mc := r.Chance(1, 2)
+	bySel := r.Chance(1, 2)
+	var picked []c19ResID
+	for _, i := range r.Perm(len(alikes))[:r.Range(2, 4)] {
+		picked = append(picked, alikes[i])
+	}
+	lbl := func(same bool) map[string]string {
+		if same {
+			return map[string]string{"app": "db", "tier": "a"}
+		}
+		return Pick(r, []map[string]string{{"app": "db2", "tier": "a"}, {"app": "db"}, {"apps": "db", "tier": "a"}, {"app": "d", "tier": "a"}, {"app": "db", "tier": "a"}})
+	}
+	// candidates that sort before r1 and must be skipped: another controller, none, or the old
+	// incarnation of the right controller
+	early := []c19Step{
+		{Op: "cr", AV: base.AV, Kind: base.Kind, Name: "r0", Labels: lbl(true), Ctrl: "x1", InUse: r.Bool()},
+		{Op: "cr", AV: base.AV, Kind: base.Kind, Name: "r01", Labels: lbl(true), InUse: r.Bool()},
+	}
+	reborn := mc && r.Bool()
+	if reborn {
+		early = append(early, c19Step{Op: "cr", AV: base.AV, Kind: base.Kind, Name: "r00", Labels: lbl(true), Ctrl: "x0", InUse: r.Bool()},
+			c19Step{Op: "dr", AV: c19XRAV, Kind: c19XRKind, Name: "x0"}, c19Step{Op: "cr", AV: c19XRAV, Kind: c19XRKind, Name: "x0"})
+	}
+	if mc {
+		steps = append(steps, early...)
+	}
+	if r.Bool() {
+		// an earlier incarnation of r1 (left-over label, no Usage) is deleted through the same
+		// long-lived webhook handler: its answer then says nothing about the r1 created next
+		steps = append(steps, c19Step{Op: "cr", AV: base.AV, Kind: base.Kind, Name: base.Name, Labels: lbl(true), InUse: true},
+			c19Step{Op: "dr", AV: Pick(r, c19Versions(base.AV)), Kind: base.Kind, Name: base.Name})
+	}
+	steps = append(steps, c19Step{Op: "cr", AV: base.AV, Kind: base.Kind, Name: base.Name, Labels: lbl(true), Ctrl: "x0", InUse: r.Bool()})
+	for _, a := range picked {
+		steps = append(steps, c19Step{Op: "cr", AV: a.AV, Kind: a.Kind, Name: a.Name, Labels: lbl(a.Kind != base.Kind || c19Group(a.AV) != c19Group(base.AV)), Ctrl: Pick(r, []string{"", "x0", "x1"}), InUse: true})
+	}
+	using := c19ResID{"ex.org/v1", "Other", "b1"}
+	steps = append(steps,
+		c19Step{Op: "cr", AV: using.AV, Kind: using.Kind, Name: using.Name, Labels: map[string]string{"app": "web"}, Ctrl: "x0"},
+		c19Step{Op: "cr", AV: using.AV, Kind: using.Kind, Name: "b10", Labels: map[string]string{"app": "web2"}, Ctrl: "x0"},
+		c19Step{Op: "cr", AV: using.AV, Kind: "Others", Name: using.Name, Labels: map[string]string{"app": "web"}, Ctrl: "x0"})
+	of := &c19RSpec{AV: Pick(r, c19Versions(base.AV)), Kind: base.Kind, Name: base.Name}
+	if mc || r.Chance(1, 3) {
+		of = &c19RSpec{AV: of.AV, Kind: base.Kind, Sel: &c19Sel{Labels: map[string]string{"app": "db", "tier": "a"}, MC: mc}}
+	}
+	by := &c19RSpec{AV: using.AV, Kind: using.Kind, Name: using.Name}
+	if bySel {
+		by = &c19RSpec{AV: using.AV, Kind: using.Kind, Sel: &c19Sel{Labels: map[string]string{"app": "web"}, MC: r.Bool()}}
+	}
+	steps = append(steps, c19Step{Op: "cu", Name: "u0", Of: of, By: by, Ctrl: "x0", Composed: r.Bool()}, c19Step{Op: "run", U: "u0"})
+	if r.Bool() {
+		steps = append(steps, c19Step{Op: "cu", Name: "u1", Of: &c19RSpec{AV: base.AV, Kind: base.Kind, Name: base.Name}, Reason: "second"}, c19Step{Op: "run", U: "u1"})
+	}
+	drs := []c19Step{{Op: "dr", AV: Pick(r, c19Versions(base.AV)), Kind: base.Kind, Name: base.Name, Policy: Pick(r, []string{"", "Orphan"})}}
+	for _, a := range picked {
+		drs = append(drs, c19Step{Op: "dr", AV: a.AV, Kind: a.Kind, Name: a.Name})
+	}
+	if mc {
+		drs = append(drs, c19Step{Op: "dr", AV: base.AV, Kind: base.Kind, Name: "r0"}, c19Step{Op: "dr", AV: base.AV, Kind: base.Kind, Name: "r01"})
+	}
+	drs = append(drs, c19Step{Op: "dr", AV: using.AV, Kind: using.Kind, Name: "b10"}, c19Step{Op: "dr", AV: using.AV, Kind: "Others", Name: using.Name})
+	for _, i := range r.Perm(len(drs)) {
+		steps = append(steps, drs[i])
+	}
+	// the user goes: the Usage is collected, the used resource released - and only it
+	steps = append(steps, c19Step{Op: "dr", AV: using.AV, Kind: using.Kind, Name: using.Name},
+		c19Step{Op: "gc", Kind: v1beta1.UsageKind, Name: "u0"}, c19Step{Op: "run", U: "u0"}, c19Step{Op: "du", Name: "u1"}, c19Step{Op: "run", U: "u1"},
+		c19Step{Op: "dr", AV: base.AV, Kind: base.Kind, Name: base.Name})
+	return c19Scn{MaxC: 1, Steps: steps}
+}
+
+// c19WorldExhaustive (thorough): (1) xcls: every error class at every call position of one
+// add-path and one delete-path reconcile (by reference / by selector), followed by a clean
+// reconcile and delete requests whose webhook List fails with that class; (2) xlag: the cache-lag
+// scenarios (u0 deleted while u1 appears; one Usage and the webhook) for every combination of
+// by-reference / by-selector Usages, both orders of the user's operations, every lag at the
+// deleting reconcile's first read, the cache standing still or catching up at each later call.
+func c19WorldExhaustive(emit func(c19Scn, string)) {
+	used := c19ResID{"ex.org/v1", "Thing", "r0"}
+	using := c19ResID{"ex.org/v1", "Other", "r1"}
+	classes := append([]string{""}, c19ErrClasses...)
+	for _, sel := range []bool{false, true} {
+		for _, del := range []bool{false, true} {
+			for k := 0; k < 10; k++ {
+				for _, cls := range classes {
+					of := &c19RSpec{AV: "ex.org/v1beta1", Kind: used.Kind, Name: used.Name}
+					by := &c19RSpec{AV: using.AV, Kind: using.Kind, Name: using.Name}
+					if sel {
+						of = &c19RSpec{AV: "ex.org/v1beta1", Kind: used.Kind, Sel: &c19Sel{Labels: map[string]string{"app": "db"}}}
+						by = &c19RSpec{AV: using.AV, Kind: using.Kind, Sel: &c19Sel{Labels: map[string]string{"app": "web"}}}
+					}
+					steps := []c19Step{
+						{Op: "cr", AV: used.AV, Kind: used.Kind, Name: used.Name, Labels: map[string]string{"app": "db"}},
+						{Op: "cr", AV: using.AV, Kind: using.Kind, Name: using.Name, Labels: map[string]string{"app": "web"}},
+						{Op: "cu", Name: "u0", Of: of, By: by, Composed: true},
+					}
+					if del {
+						steps = append(steps, c19Step{Op: "run", U: "u0"}, c19Step{Op: "du", Name: "u0"})
+						if k%2 == 0 {
+							steps = append(steps, c19Step{Op: "dr", AV: using.AV, Kind: using.Kind, Name: using.Name})
+						}
+					}
+					steps = append(steps, c19Step{Op: "start", U: "u0"})
+					for i := 0; i < 11; i++ {
+						st := c19Step{Op: "step", U: "u0", O: "ok"}
+						if i == k {
+							st.O, st.E = "fail", cls
+						}
+						steps = append(steps, st)
+					}
+					steps = append(steps,
+						c19Step{Op: "dr", AV: "ex.org/v2", Kind: used.Kind, Name: used.Name, Policy: "Background", WO: []string{map[bool]string{true: "fail", false: cls}[cls == ""], "ok"}},
+						c19Step{Op: "run", U: "u0"},
+						c19Step{Op: "dr", AV: used.AV, Kind: used.Kind, Name: used.Name, WO: []string{"ok", map[bool]string{true: "fail", false: cls}[cls == ""]}},
+						c19Step{Op: "dr", AV: used.AV, Kind: used.Kind, Name: used.Name})
+					emit(c19Scn{MaxC: 1, Steps: steps}, "xcls")
+				}
+			}
+		}
+	}
+	ofOf := func(sel bool, av string) *c19RSpec {
+		if sel {
+			return &c19RSpec{AV: av, Kind: used.Kind, Sel: &c19Sel{Labels: map[string]string{"app": "db"}}}
+		}
+		return &c19RSpec{AV: av, Kind: used.Kind, Name: used.Name}
+	}
+	for _, sel0 := range []bool{false, true} {
+		for _, sel1 := range []bool{false, true} {
+			for _, duFirst := range []bool{false, true} {
+				for v := 0; v <= 24; v++ {
+					for catchUp := 1; catchUp <= 6; catchUp++ {
+						steps := []c19Step{
+							{Op: "cr", AV: used.AV, Kind: used.Kind, Name: used.Name, Labels: map[string]string{"app": "db"}},
+							{Op: "cu", Name: "u0", Of: ofOf(sel0, "ex.org/v1"), Reason: "a"},
+							{Op: "run", U: "u0"},
+						}
+						cu1, du0 := c19Step{Op: "cu", Name: "u1", Of: ofOf(sel1, "ex.org/v1beta1"), Reason: "b"}, c19Step{Op: "du", Name: "u0"}
+						if duFirst {
+							steps = append(steps, du0, cu1)
+						} else {
+							steps = append(steps, cu1, du0)
+						}
+						steps = append(steps, c19Step{Op: "run", U: "u1"}, c19Step{Op: "start", U: "u0"})
+						for i := 0; i < 6; i++ {
+							st := c19Step{Op: "step", U: "u0", O: "ok", V: 99}
+							if i == 0 {
+								st.V = v
+							}
+							if i >= catchUp {
+								st.V = 0
+							}
+							steps = append(steps, st)
+						}
+						steps = append(steps,
+							c19Step{Op: "dr", AV: "ex.org/v2", Kind: used.Kind, Name: used.Name, V: v % 5},
+							c19Step{Op: "run", U: "u0"}, c19Step{Op: "run", U: "u1"},
+							c19Step{Op: "dr", AV: used.AV, Kind: used.Kind, Name: used.Name})
+						emit(c19Scn{MaxC: 1, Steps: steps}, "xlag")
+					}
+				}
+			}
+		}
+		for v := 0; v <= 14; v++ {
+			steps := []c19Step{
+				{Op: "cr", AV: used.AV, Kind: used.Kind, Name: used.Name, Labels: map[string]string{"app": "db"}, InUse: v%2 == 0},
+				{Op: "cu", Name: "u1", Of: ofOf(sel0, "ex.org/v2"), Reason: "b"},
+				{Op: "run", U: "u1"},
+				{Op: "dr", AV: "ex.org/v1beta1", Kind: used.Kind, Name: used.Name, Policy: "Foreground", V: v},
+				{Op: "run", U: "u1"},
+				{Op: "dr", AV: used.AV, Kind: used.Kind, Name: used.Name},
+			}
+			emit(c19Scn{MaxC: 1, Steps: steps}, "xlag")
 		}
 	}
 }
@@ -658,14 +1066,28 @@ func c19Class(scn c19Scn, obs c19Obs, fam string) string {
 			if len(s.WO) > 0 {
 				f["hkf"] = true
 			}
+			if s.V > 0 {
+				f["hlag"] = true // the webhook's List lags behind
+			}
 		case "step":
 			if s.O != "ok" {
 				f["flt"] = true
 			}
+			if s.E != "" {
+				f["ecl"] = true // an injected failure carries an error class
+			}
+			if s.V > 0 {
+				f["lag"] = true // a cached read of a reconcile lags behind
+			}
+		case "er":
+			f["er"] = true
 		case "gc":
 			f["gc"] = true
 		case "xa":
 			f["xa"] = true
+			if s.AV != "" && s.AV != v1beta1.SchemeGroupVersion.String() {
+				f["xav"] = true // composed Usage templated in another served version
+			}
 		}
 	}
 	for _, n := range ofs {
@@ -742,20 +1164,33 @@ func init() {
 				}
 				idx++
 			})
+			c19WorldExhaustive(func(s c19Scn, fam string) {
+				if idx%8 == shard%8 {
+					obs, mons := c19Run(s)
+					c.Emit(s, obs, mons, c19Class(s, obs, fam))
+				}
+				idx++
+			})
 		}
 		for i := 0; i < c.N; i++ {
 			r := c.Rng.Fork()
 			var s c19Scn
 			fam := "rnd"
-			switch w := r.Intn(12); {
+			switch w := r.Intn(18); {
 			case w < 5:
 				s = c19GenRandom(r)
 			case w < 8:
 				s, fam = c19GenMerge(r), "mrg"
 			case w < 10:
 				s, fam = c19GenFaultSweep(r), "flt"
-			default:
+			case w < 12:
 				s, fam = c19GenOwner(r), "own"
+			case w < 14:
+				s, fam = c19GenLag(r), "lag"
+			case w < 16:
+				s, fam = c19GenIdentity(r), "idn"
+			default:
+				s, fam = c19GenClasses(r), "cls"
 			}
 			obs, mons := c19Run(s)
 			c.Emit(s, obs, mons, c19Class(s, obs, fam))
@@ -766,10 +1201,11 @@ func init() {
 		// (1) the index key, evaluated by the repo's own functions on a probe universe:
 		//     webhook side = IndexValueForObject(object), controller side = the
 		//     IndexerFunc registered by SetupWebhookWithManager applied to a Usage.
-		w := c19NewWire(NewStore(nil))
-		avs := []string{"ex.org/v1", "ex.org/v1beta1", "ex.org/v2", "other.io/v1", "other.io/v1alpha1", "v1", "", "/", "a/b/c", "apps/v1"}
-		kinds := []string{"Thing", "Other"}
-		names := []string{"r0", "a.b"}
+		st0 := NewStore(nil)
+		w := c19NewWire(st0, st0)
+		avs := []string{"ex.org/v1", "ex.org/v1beta1", "ex.org/v2", "other.io/v1", "other.io/v1alpha1", "v1", "", "/", "a/b/c", "apps/v1", "ex.org.io/v1", "x.ex.org/v1", "EX.org/v1"}
+		kinds := []string{"Thing", "Things", "thing"}
+		names := []string{"r1", "a.b", "r10"}
 		sb.WriteString("/-- (apiVersion, kind, name, IndexValueForObject of such an object, index values of a Usage whose spec.of is that reference) -/\n")
 		sb.WriteString("def c19IndexProbe : List (String × String × String × String × List String) := [\n")
 		first := true
@@ -815,10 +1251,41 @@ func init() {
 		sb.WriteString("def c19HookGroups : List String := " + leanStrList(cfg.Groups) + "\n")
 		sb.WriteString(fmt.Sprintf("def c19HookFailClosed : Bool := %v\n", cfg.Fail && cfg.Err == ""))
 		sb.WriteString(fmt.Sprintf("/-- a handler is registered at the path the configuration points to -/\ndef c19HookPathServed : Bool := %v\n", w.handler != nil))
+		// (2b) which current objects the composer's RespectOwnerRefs option recognises as a Usage:
+		//      (apiVersion, kind, the option replaced the desired owner references by the current ones)
+		sb.WriteString("/-- (apiVersion, kind of the current composed object, RespectOwnerRefs kept its owner references) -/\n")
+		sb.WriteString("def c19ComposerRespects : List (String × String × Bool) := [")
+		for i, p := range [][2]string{{v1beta1.Group + "/v1beta1", v1beta1.UsageKind}, {v1beta1.Group + "/v1alpha1", v1beta1.UsageKind},
+			{"other.io/v1beta1", v1beta1.UsageKind}, {v1beta1.Group + "/v1beta1", "Usages"}, {v1beta1.Group + "/v1beta1", "usage"}, {"ex.org/v1", "Thing"}} {
+			if i > 0 {
+				sb.WriteString(", ")
+			}
+			sb.WriteString(fmt.Sprintf("(%s, %s, %v)", leanStr(p[0]), leanStr(p[1]), c19ComposerRespects(p[0], p[1])))
+		}
+		sb.WriteString("]\n")
 		// (3) constants of the controller
 		sb.WriteString("def c19InUseLabelKey : String := " + leanStr(usagectrl.VerifInUseLabelKey) + "\n")
 		sb.WriteString("def c19Finalizer : String := " + leanStr(usagectrl.VerifFinalizer) + "\n")
 		sb.WriteString("def c19AttemptAnnotation : String := " + leanStr(usagehook.AnnotationKeyDeletionAttempt) + "\n")
 		return sb.String()
 	})
+}
+
+// c19ComposerRespects runs the real RespectOwnerRefs option on a current object of the given
+// apiVersion/kind carrying an owner reference and a desired object carrying another one.
+func c19ComposerRespects(av, kind string) bool {
+	cur, des := composed.New(), composed.New()
+	cur.SetAPIVersion(av)
+	cur.SetKind(kind)
+	cur.SetName("u")
+	cur.SetOwnerReferences([]metav1.OwnerReference{{APIVersion: "ex.org/v1", Kind: "Other", Name: "b", UID: "1"}})
+	des.SetAPIVersion(av)
+	des.SetKind(kind)
+	des.SetName("u")
+	des.SetOwnerReferences([]metav1.OwnerReference{{APIVersion: c19XRAV, Kind: c19XRKind, Name: "x", UID: "2"}})
+	if err := usagectrl.RespectOwnerRefs()(context.Background(), cur, des); err != nil {
+		return false
+	}
+	refs := des.GetOwnerReferences()
+	return len(refs) == 1 && refs[0].UID == "1"
 }
